@@ -157,7 +157,7 @@ class Ref:
         for f in self.fields:
             self.declared[f"f{f['k']}_r_stb"] = {"e_r_stb"} & set(self.ii)
             self.declared[f"f{f['k']}_w_stb"] = {"e_w_stb"} & set(self.ii)
-            self.declared[f"f{f['k']}_w_data"] = {"e_w_data"} & set(self.ii)
+            self.declared[f"f{f['k']}_w_data"] = {"e_w_data", "e_w_stb"} & set(self.ii)
 
     def what(self, p):
         return p.split("_", 1)[1] if p[0] == "f" else p
@@ -174,7 +174,7 @@ class Ref:
 
     def expected(self, letter):
         if self.meta_err:
-            return {p: -1 for p in self.pi}          # forces a report
+            return {"__error__": self.meta_err}
         ii = self.ii
         g = lambda n: letter[ii[n]] if n in ii else 0
         exp = {}
@@ -185,7 +185,10 @@ class Ref:
                 rd |= g(f"f{k}_r_data") << f["off"]
             exp[f"f{k}_r_stb"] = g("e_r_stb") if f["rd"] else 0
             exp[f"f{k}_w_stb"] = g("e_w_stb") if f["wr"] else 0
-            exp[f"f{k}_w_data"] = ((g("e_w_data") >> f["off"]) & ((1 << f["w"]) - 1)) if f["wr"] else 0
+            # "a register write hands each writable field exactly its own bit range": compared during a write
+            # (w_data is only valid with w_stb); what non-writable fields see on w_data is not constrained
+            exp[f"f{k}_w_data"] = (((g("e_w_data") >> f["off"]) & ((1 << f["w"]) - 1))
+                                   if (f["wr"] and g("e_w_stb")) else None)
         if "e_r_data" in self.pi:
             exp["e_r_data"] = rd
         return exp
